@@ -91,7 +91,8 @@ StringDictionaryRPFC::StringDictionaryRPFC(IteratorDictString *it,
     {
       // Extracting the internal strings for Re-Pair compression
 
-      if ((ptrpdict + (size_t)(bucketsize * maxlength)) > reservedInts)
+      // Each remaining byte of the bucket yields, at most, two symbols
+      while ((ptrpdict + 2 * (pend - pbeg) + 1) > reservedInts)
         reservedInts = Reallocate(&rpdict, reservedInts);
 
       // Stores the last position with 0 to avoid confusions with 0 values
@@ -124,7 +125,9 @@ StringDictionaryRPFC::StringDictionaryRPFC(IteratorDictString *it,
   bitsrp = rp->getBits();
 
   std::vector<size_t> intStrings;              // Encoded internal strings
-  std::vector<size_t> beginnings(buckets + 1); // Bucket beginnings
+  // Bucket beginnings (plus the end of the last bucket, which is an extra
+  // entry when the last bucket is full)
+  std::vector<size_t> beginnings(buckets + 2);
 
   size_t ibytes = 0;
   uint io = 0, strings = 0;
@@ -190,13 +193,13 @@ StringDictionaryRPFC::StringDictionaryRPFC(IteratorDictString *it,
       // Updating the ptr value to the beginning of the corresponding internal
       // string
       ptrB = beginnings[bucket - 1];
-      ptrE = beginnings[bucket] - 1;
+      ptrE = beginnings[bucket];
 
       // Processing the internal strings
       offset = 0;
       textStrings[bytesStrings] = 0;
 
-      for (; ptrB <= ptrE; ptrB++)
+      for (; ptrB < ptrE; ptrB++)
         bytesStrings += encodeSymbol(intStrings[ptrB],
                                      &(textStrings[bytesStrings]), &offset);
 
